@@ -84,7 +84,27 @@ def w_rollback_unmanaged_overwritten(events, line):
     return bool(diff) and all(l in before and l not in managed_before and l not in after for l in diff)
 
 
+def faulty_step(events, line):
+    """the fault-injected TransactionSet of the behaviour the event at `line` belongs to"""
+    e = events[line - 1]
+    j = line - 1
+    while j >= 0 and events[j]["b"] == e["b"]:
+        x = events[j]
+        if x["ev"] == "txset" and (x.get("failat") or x.get("devfail")):
+            return x
+        j -= 1
+    return None
+
+
+def w_silent_read_failure(events, line):
+    """C07 retry clauses fail after a cache Read/ReadCh call failed: the client interface has no error
+    return, the failed read is an empty read and the transaction goes on with incomplete data."""
+    f = faulty_step(events, line)
+    return f is not None and f.get("failkind") in ("cache.Read", "cache.ReadCh")
+
+
 WITNESS = {
+    "silent_read_failure": w_silent_read_failure,
     "rollback_unmanaged_overwritten": w_rollback_unmanaged_overwritten,
 }
 
